@@ -64,6 +64,8 @@ def universe(seed, uid):
                 ft = {'array': gen.rand_prim(rng, o, allow_occ=False)}
             else:
                 ft = {'seq': gen.rand_prim(rng, o, allow_occ=False), 'max': rng.choice((3, 'unbounded'))}
+            if rng.random() < .3:
+                ft['py'] = 'py_f%d_%d' % (i, j)         # the public name differs from the name of the Python attribute (sub_name)
             fields.append(['f%d_%d' % (i, j), ft])
         types.append({'name': 'K%d' % i, 'ns': ns, 'base': base, 'fields': fields, 'has_xmldata': False})
     # a holder class with members declared as bases
